@@ -5,7 +5,8 @@
    {"ev":"enc","k","v","out","err","panic"} a writer was given v and produced bytes out
    {"ev":"dec","k","in","max","rd","ok","v","n","panic","alloc","rn"}
                                             a reader was given bytes in (rd = "buf": bytes.Reader,
-                                            "one": one byte per Read, no ByteReader) and returned value v
+                                            "one": one byte per Read, no ByteReader; "bbuf": bytes.Buffer,
+                                            "bufio": bufio.Reader, "lim": io.LimitedReader) and returned value v
                                             having consumed n bytes (ok = no error); alloc = bytes allocated
                                             during the call (-1: not measured); rn = byte count reported by
                                             the function itself (-1: none)
